@@ -30,6 +30,7 @@ type goroutineT struct {
 	what    string
 	started bool
 	spawnPos string
+	lib      bool // started by the code under test (or by such a goroutine)
 }
 
 type killedPanic struct{}
@@ -529,14 +530,14 @@ func (s *scheduler) logAccess(k evKind, cell *value) {
 	if !s.logEvents || s.cur == nil {
 		return
 	}
-	s.events = append(s.events, event{kind: k, g: s.cur.id, obj: uintptr(unsafe.Pointer(cell)), pos: cur.curPos, fn: cur.curFn, target: cur.curFn != nil && inTargetPkg(cur.curFn)})
+	s.events = append(s.events, event{kind: k, g: s.cur.id, obj: uintptr(unsafe.Pointer(cell)), pos: cur.curPos, fn: cur.curFn, target: s.cur.lib || (cur.curFn != nil && inTargetPkg(cur.curFn))})
 }
 
 func (s *scheduler) logObj(k evKind, obj unsafe.Pointer) {
 	if !s.logEvents || s.cur == nil {
 		return
 	}
-	s.events = append(s.events, event{kind: k, g: s.cur.id, obj: uintptr(obj), pos: cur.curPos, fn: cur.curFn, target: cur.curFn != nil && inTargetPkg(cur.curFn)})
+	s.events = append(s.events, event{kind: k, g: s.cur.id, obj: uintptr(obj), pos: cur.curPos, fn: cur.curFn, target: s.cur.lib || (cur.curFn != nil && inTargetPkg(cur.curFn))})
 }
 
 func (s *scheduler) logLock(k evKind, cell *value) {
